@@ -293,3 +293,29 @@ Proof.
     unfold unexcused, differs, excused, differs3, ign3, norm. cbn [fst snd].
     destruct (str_eqb _ _); cbn [negb andb orb]; [reflexivity|]. destruct (tri_true _); reflexivity.
 Qed.
+
+(* ---------------------------------------------------------------- different numbers of kept lines: the statement fails.
+   With ignore_substrings ["A"], actual = A old / x / A older / extra, reference = A new / y / A newer: wrong_number
+   stops advancing at the unexcused pair (x, y), so the excusable pair (A older, A newer) is never marked and the
+   post-processed pair differs on it too.  This is the known finding c15-postprocessed-pair-different-line-counts,
+   as a theorem about the model (the correspondence check shows the code does the same). *)
+Definition c15_o : opts :=
+  {| o_lstrip := false; o_rstrip := false; o_isub := [[65]]; o_npat := 0; o_rem := []; o_maxperm := 0;
+     o_preproc := false; o_apath := false |}.
+Definition c15_A : list str := [[65;32;111;108;100]; [120]; [65;32;111;108;100;101;114]; [101;120;116;114;97]].
+Definition c15_E : list str := [[65;32;110;101;119]; [121]; [65;32;110;101;119;101;114]].
+
+Lemma different_line_counts_refuted_proof :
+  exists o orc A E r,
+    existsb (diverging o orc) (combine (prep o A) (prep o E)) = false /\
+    length (prep o A) <> length (prep o E) /\
+    r_verdict (check_strings o orc A E) = Fail /\
+    r_recon (check_strings o orc A E) = Some r /\
+    exists p, In p (diffpairs r) /\ differs o p = true /\ excused o orc p = true.
+Proof.
+  eexists c15_o, [], c15_A, c15_E, _.
+  split; [vm_compute; reflexivity|]. split; [vm_compute; discriminate|].
+  split; [vm_compute; reflexivity|]. split; [vm_compute; reflexivity|].
+  exists ([65;32;111;108;100;101;114], [65;32;110;101;119;101;114]).
+  split; [vm_compute; right; left; reflexivity|]. split; vm_compute; reflexivity.
+Qed.
